@@ -5,7 +5,7 @@
      matched atoms" as reference.
 (ii) attribution: MCSSearch.find is observed inside real Balancer.rebalance runs (a spy
      captures the rows entering the stage and the records it attaches, then stops the
-     run) for every ordered sub-batch of size <= 3 of 8 MCS-bound reactions interleaved
+     run) for every ordered sub-batch of size <= 3 of 10 MCS-bound reactions interleaved
      with already-solved rows, and under every single task-order deviation at the
      Parallel calls of the stage.  Thorough: the complete validation corpus.
 """
@@ -99,6 +99,8 @@ MCS_BOUND = [
     "CC(=O)OCC.[Na+].[OH-]>>CC(=O)[O-].[Na+]",
     "CC>>CCC",
     "CC(=O)OC.CC(=O)OCC>>CC(=O)O.CO",
+    "CCBr>>N",                                   # no common substructure under any condition
+    "OC(=O)c1ccccc1.C1CCOC1>>O=C(OCCC)c1ccccc1",  # the three conditions disagree on the total
 ]
 SOLVED = ["CC(=O)O.CCO>>CC(=O)OCC.O", "CCO>>CC=O"]
 STAGE_FILES = ("mcs_process.py", "find_graph_dict.py", "extract_common_mcs.py")
@@ -234,7 +236,7 @@ def schedule_roots(job):
 def covering_triples(items):
     n = len(items)
     out = []
-    for a, b in ((1, 2), (2, 5), (3, 7), (4, 9)):
+    for a, b in ((1, 2), (2, 5), (3, 7), (4, 9), (8, 3)):
         for i in range(n):
             out.append((items[i], items[(i + a) % n], items[(i + b) % n]))
     return out
@@ -307,11 +309,11 @@ def run(tier, seed):
         "evaluations": n_tables + len(subs) + n_exec,
         "distinct_nontrivial": n_tables + n_clean,
         "rule": "(i) every table of 3 conditions x 1 reaction over 9 entry shapes and x 2 reactions over {} shapes{} through "
-                "get_largest_condition vs argmax reference; (ii) every ordered sub-batch of size 1..2{} of 8 MCS-bound + 2 "
+                "get_largest_condition vs argmax reference; (ii) every ordered sub-batch of size 1..2{} of 10 MCS-bound + 2 "
                 "solved reactions observed at MCSSearch.find inside real runs, plus every single{} task-order deviation at the "
                 "stage's Parallel calls for 3 batches{}.".format(
                     len(two), " and 3 reactions over 4 shapes" if thorough else "",
-                    " and every triple" if thorough else " and 40 covering triples", " and double" if thorough else "",
+                    " and every triple" if thorough else " and 60 covering triples", " and double" if thorough else "",
                     "; complete corpus" if thorough else ""),
         "exhaustive": True,
     }
